@@ -127,6 +127,20 @@ def priors():
             return Scenario(B, flat(extra=[('E', rm.file_entry('DATA', 'd/f1', b'OLD', h2))]))
         yield f'dup_{rel}_stale', dup_stale
 
+    # contradicting duplicates one of which describes an EMPTY file (size 0): entries for the 3-byte d/f1, stale one
+    # first / last, same hash set and another one
+    for order in ('stale_last', 'stale_first'):
+        for h2 in (H1, ('MD5',)):
+            def dup_empty(order=order, h2=h2):
+                stale = ('E', rm.file_entry('DATA', 'd/f1', b'', h2))
+                items = flat(extra=[stale])
+                if order == 'stale_first':
+                    sp = items[0]
+                    sp.items.remove(stale)
+                    sp.items.insert(0, stale)
+                return Scenario(B, items)
+            yield f'dup_empty_{order}_{"same" if h2 == H1 else "other"}', dup_empty
+
     def dup_parent_child():
         return Scenario(B, [
             MSpec(TOP, [_F('f0'), _F('g/f3'), _F('dx/f5'), _F('d.txt'), _F('d/f1'), _F('d/e/f2'), ('M', 'd/Manifest', H1)]),
